@@ -19,7 +19,8 @@ def pairUpCB {K : Type} : List K → List (K × K)
 
 /-- `chipborder <mode> <lx hx ly hy | none> <stepsize | none> <n> <x0 y0 … x(n-1) y(n-1)>` →
 `ok <lx hx ly hy> <npts> <x y …>` (the rectangle and the border handed to
-`det_to_world`) or `err emptyCatalog` / `err zeroStep` -/
+`det_to_world`; the catalog enters the rectangle in both branches: without bounding box through its
+largest coordinates, with one through the sources that the half-pixel shrink must not pass) or `err emptyCatalog` / `err zeroStep` -/
 def opChipBorder (K : Type) [Add K] [Sub K] [Mul K] [Div K] [Neg K] [LT K] [DecidableLT K] [NatCast K]
     [HasFloor K] [Sc K] (args : List String) : String :=
   match (parseBBox args : Option (Option (Rect K) × List String)) with
